@@ -68,6 +68,21 @@ def gen_uf_deep(rng, big):
     return {"kind": "uf", "n": n, "ops": [list(o) for o in ops]}
 
 
+def gen_uf_chain(rng, n):
+    """Large adversarial histories: a long path united link by link in one orientation (without union
+    by rank the forest degenerates into a chain as deep as the interpreter's recursion limit), then
+    reads of the far end."""
+    order, rev = rng.choice([("up", True), ("up", True), ("down", False), ("up", False), ("down", True)])
+    ops = []
+    rng_i = range(n - 1) if order == "up" else range(n - 2, -1, -1)
+    for i in rng_i:
+        ops.append((UNION, i + 1, i) if rev else (UNION, i, i + 1))
+    ops += [(FIND, 0, 0), (FIND, n - 1, 0), (CONN, 0, n - 1), (COUNT, 0, 0)]
+    for _ in range(5):
+        ops.append((FIND, rng.randrange(n), 0))
+    return {"kind": "uf", "n": n, "ops": [list(o) for o in ops]}
+
+
 def gen_uf(rng, big):
     if rng.random() < 0.3:
         return gen_uf_deep(rng, big)
@@ -292,6 +307,9 @@ def run(ctx, budget):
     big = ctx.tier == "thorough"
     for i in range(n):
         cases.append(gen_uf(ctx.rng, big) if i % 2 == 0 else gen_fen(ctx.rng, big))
+    # a few large structured histories (deep-chain family): cheap for a correct union-find
+    for size in ([1200, 1500] if not big else [1200, 1500, 2000, 2500]):
+        cases.append(gen_uf_chain(ctx.rng, size))
     run_cases(ctx, cases)
 
 
